@@ -11,7 +11,7 @@ CASES = {'quick': 1500, 'thorough': 40000}
 GATES = {
     'quick': {'evaluations': 30000, 'equal_pairs': 15000, 'token_perturbations': 3400, 'child_perturbations': 2500,
               'attribution_perturbations': 500, 'type_perturbations': 300, 'class_fields_perturbed': 120, 'token_law_pairs': 10000,
-              'whole_file_text_perturbations': 3000},
+              'whole_file_text_perturbations': 3000, 'token_law_after_edit': 3000},
     'thorough': {'evaluations': 800000, 'class_fields_perturbed': 160},
 }
 RULE = ('case = one accepted generated document. Equal pairs: two parses of the text and a model and its deepcopy, compared root and '
@@ -128,6 +128,36 @@ def run_case(col, r, idx):
         if eq and hash(x) != hash(y):
             col.violation('token-hash', f'{x!r} == {y!r} but their hashes differ', wit)
             return
+    # token laws across an edit: a token that was hashed, then edited through value / raw_text, must still hash like an equal token
+    from .. import values
+    cands = [t for t in toks if hasattr(type(t), 'value')]
+    for t in r.sample(cands, min(6, len(cands))):
+        hash(t)
+        v = values.value_for(r, t, hostile=False)
+        if v is None:
+            continue
+        try:
+            if r.random() < 0.5:
+                t.value = v
+                how = 'value'
+            else:
+                t.raw_text = (models.BlockComment.from_value(v, indent=t.indent) if isinstance(t, models.BlockComment) else type(t).from_value(v)).raw_text
+                how = 'raw_text'
+            twin = type(t).from_raw_text(t.raw_text)
+        except Exception:
+            continue
+        col.ev()
+        col.count('token_law_after_edit')
+        col.nontrivial(text, 'hash-after-edit', type(t).__name__, repr(v))
+        if not (t == twin and twin == t):
+            col.violation(f'token-eq-after-edit:{type(t).__name__}', f'after assigning {how}, {t!r} != a fresh token with the same rule and text', wit)
+            return
+        if hash(t) != hash(twin) or t not in {twin}:
+            col.violation(f'token-hash-after-edit:{type(t).__name__}', f'after assigning {how}, {t!r} equals a fresh token of the same text but hashes differently', wit)
+            return
+    a = P.parse(text, models.File, auto_claim_comments=acl)      # the edits above were made on `a`: take a fresh parse for what follows
+    pa = by_path(a)
+    toks = [t for t in a.token_store]
     # (0) same document with a token added or removed outside every directive (trailing / leading blank lines, final newline):
     #     the printed texts differ, so the files must be unequal
     for v in (text + '\n', text + '  ', '\n' + text, text.rstrip('\r\n'), text.rstrip('\r\n \t'), text + '\n\n', text + '\n; tail comment'):
